@@ -182,9 +182,9 @@ SplitOn(cs, d) ==
   ELSE LET i == CHOOSE i \in 1..Len(cs) : cs[i] = d /\ \A j \in 1..(i - 1) : cs[j] # d
        IN <<SubSeq(cs, 1, i - 1)>> \o SplitOn(SubSeq(cs, i + 1, Len(cs)), d)
 RECURSIVE StripL(_)
-StripL(cs) == IF cs # <<>> /\ Head(cs) = 32 THEN StripL(Tail(cs)) ELSE cs
+StripL(cs) == IF cs # <<>> /\ Head(cs) \in {32, 10} THEN StripL(Tail(cs)) ELSE cs
 RECURSIVE StripR(_)
-StripR(cs) == IF cs # <<>> /\ cs[Len(cs)] = 32 THEN StripR(SubSeq(cs, 1, Len(cs) - 1)) ELSE cs
+StripR(cs) == IF cs # <<>> /\ cs[Len(cs)] \in {32, 10} THEN StripR(SubSeq(cs, 1, Len(cs) - 1)) ELSE cs
 Strip(cs) == StripR(StripL(cs))
 StartsWith(cs, p) == Len(cs) >= Len(p) /\ SubSeq(cs, 1, Len(p)) = p
 
